@@ -47,7 +47,13 @@ structure State where
   allow : List Entry := []
   userRules : List Bytes := []
   filtering : Bool := true
-  protection : Bool := true
+  /-- `protection_enabled` as stored (`Config.ProtectionEnabled`) -/
+  protFlag : Bool := true
+  /-- `protection_disabled_until`, on the model's clock (ms) -/
+  protUntil : Option Nat := none
+  /-- the model's clock: advanced only by explicit waits (the harness uses pauses
+  of an hour, or short ones that are always waited out before the next step) -/
+  now : Nat := 0
   /-- While a rebuild of the engines cannot complete (a list file that cannot be
   opened, or a rebuild still in progress), the rules of the last completed
   rebuild stay in force: `(block lines, allow lines)` at that moment. -/
@@ -144,9 +150,35 @@ def freeze (s : State) (i : Nat) : Bool × State :=
 /-- the file is restored and a rebuild completes -/
 def thaw (s : State) : State := { s with held := none, stalled := false }
 
+/-- the deadline as `UpdatedProtectionStatus` sees it now -/
+def State.pause (s : State) : Pause :=
+  match s.protUntil with
+  | none => .none
+  | some t => if s.now < t then .future else .past
+
+/-- `handleSetProtection` (POST /control/protection): a duration is only accepted
+with `enabled = false`; otherwise `SetProtectionStatus(enabled, deadline)` — the
+flag AND the deadline are replaced, so an accepted request without duration
+cancels any pending pause. -/
+def setProtection (s : State) (enabled : Bool) (duration : Nat) : Nat × State :=
+  if duration > 0 ∧ enabled then (400, s)
+  else (200, { s with protFlag := enabled,
+                      protUntil := if duration > 0 then some (s.now + duration) else none })
+
+/-- the legacy path, POST /control/dns_config {"protection_enabled": b}:
+`SetProtectionEnabled` writes the flag only.  QUIRK: a pending pause stays. -/
+def setProtectionLegacy (s : State) (enabled : Bool) : State := { s with protFlag := enabled }
+
+/-- time passes -/
+def wait (s : State) (ms : Nat) : State := { s with now := s.now + ms }
+
+/-- a request that finds the pause expired makes `enableProtectionAfterPause` store (true, no deadline) -/
+def afterQuery (s : State) : State :=
+  if s.pause = .past then { s with protFlag := true, protUntil := none } else s
+
 /-- the `Conf` a query of the sequence runs under (fixed apart from the two switches) -/
 def State.conf (s : State) : Conf :=
-  { mode := .default, bip4 := none, bip6 := none, ttl := 10, protEnabled := s.protection, pause := .none,
+  { mode := .default, bip4 := none, bip6 := none, ttl := 10, protEnabled := s.protFlag, pause := s.pause,
     filtering := s.filtering, aaaaDisabled := false, schedNow := false, services := [], client := none,
     clientIP := { v6 := false, val := 167772161 } }
 
